@@ -299,6 +299,8 @@ TraceEnd ==
                        [] phase = "crashed" -> "ConvergenceError"
                        [] phase = "commerr" -> "CommunicationError"
                        [] phase \in {"nothing", "stageerr", "prederr", "ctrlerr"} -> "ControllerError"
+                       [] phase = "init" -> IF NumActive([p \in Slots |-> T0 + p * DT0]) = 0
+                                            THEN "ControllerError" ELSE "?"
                        [] OTHER -> "?"
            obsStats == {ln.stats[i] : i \in 1 .. Len(ln.stats)}
            PT == {"niter", "restart", "dt", "u"}
